@@ -23,3 +23,50 @@ for pid in sorted(registry.REG):
     fixed = [e.get("commit", "") for e in kf if e["property"] == pid and e["status"] == "fixed"]
     seeds = ["%s%s" % (s, "" if v.get("caught") else " (MISSED)") for s, v in sorted(res.items()) if v.get("check") == pid]
     print("| %s | %s | %s | %d | %s | %s |" % (pid, r["engine"], n, len(known), ", ".join(sorted(set(fixed))) or "-", ", ".join(seeds) or "-"))
+
+
+def known_table():
+    out = ["| property | key | what fails | witness |", "|---|---|---|---|"]
+    for e in kf:
+        if e["status"] == "known":
+            out.append("| %s | `%s` | %s | %s |" % (e["property"], e["key"], e["what"].replace("|", "\\|").replace("\n", " "),
+                                                    str(e.get("witness", "")).replace("|", "\\|")))
+    return out
+
+
+def splice(path):
+    """Replace the two generated tables of DESIGN.md in place (the table that follows each header line)."""
+    import io, contextlib
+    lines = open(path).read().split("\n")
+
+    def replace_table(header_prefix, new_rows):
+        i = next(k for k, l in enumerate(lines) if l.startswith(header_prefix))
+        j = i
+        while j < len(lines) and lines[j].startswith("|"):
+            j += 1
+        lines[i:j] = new_rows
+
+    buf = io.StringIO()
+    # the first table is what the module prints at import time; rebuild it here
+    rows = ["| id | engine | quick N | known findings | fixed defects | seeded changes (caught by this check) |", "|---|---|---|---|---|---|"]
+    for pid in sorted(registry.REG):
+        r = registry.REG[pid]
+        try:
+            mod = importlib.import_module("vlib.props." + pid)
+            n = getattr(mod, "N", {}).get("quick") or getattr(mod, "COUNTS", {}).get("quick") or \
+                ("%ds fuzz" % mod.SECONDS["quick"] if hasattr(mod, "SECONDS") else "-")
+        except Exception:
+            n = "?"
+        if r.get("not_applicable"):
+            continue
+        known = [e["key"] for e in kf if e["property"] == pid and e["status"] == "known"]
+        fixed = [e.get("commit", "") for e in kf if e["property"] == pid and e["status"] == "fixed"]
+        seeds = ["%s%s" % (s, "" if v.get("caught") else " (MISSED)") for s, v in sorted(res.items()) if v.get("check") == pid]
+        rows.append("| %s | %s | %s | %d | %s | %s |" % (pid, r["engine"], n, len(known), ", ".join(sorted(set(fixed))) or "-", ", ".join(seeds) or "-"))
+    replace_table("| id | engine | quick N |", rows)
+    replace_table("| property | key | what fails | witness |", known_table())
+    open(path, "w").write("\n".join(lines))
+
+
+if len(sys.argv) > 1 and sys.argv[1] == "--splice":
+    splice(os.path.join(V, "DESIGN.md"))
